@@ -2,6 +2,7 @@
 from __future__ import annotations
 
 import itertools
+import json
 import operator
 from collections import Counter
 from fractions import Fraction
@@ -134,6 +135,8 @@ def is_scalar(opd):
 
 def _call(case, shared_left=None):
     L, R = (shared_left if shared_left is not None else build(case["l"])), build(case.get("r"))
+    if case.get("same_object") and case.get("r") == case["l"]:
+        R = L  # ONE object as both operands: two independent copies of the same distribution all the same
     op = case["op"]
     if op in BIN:
         return BIN[op](L, R)
@@ -425,6 +428,8 @@ def generate(rnd, tier, scale):
                 if side is not None and side["t"] == "h" and rnd.random() < 0.7:
                     side["subclass"] = True
         case = dict(op=op, l=l, r=r)
+        if rnd.random() < 0.08 and not is_scalar(l) and op not in ("pow", "floordiv", "mod", "truediv"):
+            case = dict(op=op, l=l, r=json.loads(json.dumps(l)), same_object=True)
         if op == "within":
             lo, hi = sorted([rnd.randint(-3, 3), rnd.randint(-3, 3)])
             if rnd.random() < 0.05:
